@@ -209,16 +209,17 @@ Proof.
   unfold pout_ok. cbn. apply Forall_app. split; [apply not_pr_ok, W|apply pr_events_ok, A].
 Qed.
 
-Lemma notify_children_ok e : forall children p acc p' o,
-  notify_children e p children acc = Some (p', o) -> pout_ok acc -> pout_ok o.
+Lemma notify_children_ok sk e : forall children p acc p' o,
+  notify_children_gen sk e p children acc = Some (p', o) -> pout_ok acc -> pout_ok o.
 Proof.
-  induction children as [|[cs ch] rest IH]; intros p acc p' o H Ha; cbn [notify_children] in H.
+  induction children as [|[cs ch] rest IH]; intros p acc p' o H Ha; cbn [notify_children_gen] in H.
   - injection H as _ <-. exact Ha.
-  - destruct (notify_parent_certified e cs (p_ss (p_touch p cs) cs) ch) as [[[ss' evs] rps]|] eqn:E; [|discriminate].
+  - destruct (sk && (cs <? first_unpruned p)); [exact (IH _ _ _ _ H Ha)|].
+    destruct (notify_parent_certified e cs (p_ss (p_touch p cs) cs) ch) as [[[ss' evs] rps]|] eqn:E; [|discriminate].
     eapply IH; [exact H|]. apply pout_app; [exact Ha|]. unfold pout_ok. cbn. apply not_pr_ok. eapply certified_ev, E.
 Qed.
 Lemma notify_waiting_ok e p b p' o : notify_waiting_children e p b = Some (p', o) -> pout_ok o.
-Proof. unfold notify_waiting_children. intros H. eapply notify_children_ok; [exact H|apply pout_empty]. Qed.
+Proof. unfold notify_waiting_children, notify_waiting_children_gen. intros H. eapply notify_children_ok; [exact H|apply pout_empty]. Qed.
 
 Lemma cert_created_ok c : pout_ok (mkPO [ECertCreated c] []).
 Proof. repeat constructor. Qed.
